@@ -26,7 +26,6 @@ WILD_ITEM = "out-of-claim: item of a list wildcard that is not an AnyElement wit
 WILD_NAME = "out-of-claim: generic element named like a declared element or wrapper of the class (it is that field's element)"
 WILD_NS = "out-of-claim: generic element outside the namespaces of the wildcard (typing)"
 WILD_XSI = "out-of-claim: xsi:type / xsi:nil among the attributes of a generic element (control attributes)"
-WILD_SINGLE = "out-of-claim: a wildcard field that is not a list (not in the fragments)"
 GENERIC_FORM = ("out-of-claim: generic element not in the form the parser builds (text None, a tail, white-space text next to "
                 "children): C11")
 GENERIC_ATTR = "out-of-claim: attribute value of a generic element that looks like prefix:rest or is the Clark name of a datatype (C11)"
@@ -148,15 +147,24 @@ def regions(desc, value, ctx=None, inherit=True):
                 generic_form(c["any"])
 
     def wild_check(meta, f, x):
-        """`wildItemOK` of Bind/FN.lean: the items of the list wildcard of a class"""
-        if not (isinstance(x, dict) and "list" in x) or meta is None:
-            out.append(WILD_SINGLE)  # (the universe is excluded as well)
-            return
-        wv = next((w for w in meta["wildcards"] if w["name"] == f["name"]), None)
+        """`wildItemOK` of Bind/FN.lean: the items of the wildcard of a class (a list, or one generic
+        element / None)"""
+        wv = next((w for w in (meta or {"wildcards": []})["wildcards"] if w["name"] == f["name"]), None)
         if wv is None:
             return
+        if wv["list_element"]:
+            if not (isinstance(x, dict) and "list" in x):
+                out.append(WILD_ITEM)
+                return
+            items = x["list"]
+        elif x is None:
+            if f.get("default", {}).get("value", "<required>") is not None:
+                out.append(TYPING[1])
+            return
+        else:
+            items = [x]
         declared = {q for q, _ in meta["elements"]} | {k for k, _ in meta["wrappers"]}
-        for y in x["list"]:
+        for y in items:
             if not (isinstance(y, dict) and "any" in y and y["any"]["qname"]):
                 out.append(WILD_ITEM)
                 continue
@@ -325,7 +333,7 @@ def _seq_ok(vs):
 def ctx_expected(ctx, ns_agree, feat=None):
     """`ctxOK feat` (default: all features, `FEAT`) on exported universes of WIDE_FEATURES: every
     feature the universe uses is switched on; no class with a text var and child elements; no
-    token-list or wrapped var inside a sequence group (`seqOK`); the wildcard is a plain list"""
+    token-list or wrapped var inside a sequence group (`seqOK`); the wildcard (list or single) is not mixed and is found under its own name"""
     feat = FEAT if feat is None else feat
     on = lambda k: bool(feat.get(k))  # noqa: E731
     for ci in ctx["classes"]:
@@ -343,12 +351,12 @@ def ctx_expected(ctx, ns_agree, feat=None):
                 return False  # a subclass adds child elements to a class with a text var (not in the fragments)
             if not _seq_ok(vs):
                 return False
-            # `wildVarOK`: at most one wildcard, a plain list that `find_children` finds under its own name
+            # `wildVarOK`: at most one wildcard, not mixed, that `find_children` finds under its own name
             if len(m["wildcards"]) > 1:
                 return False
             for w in m["wildcards"]:
                 names = {q for q, _ in m["elements"]} | {k for k, _ in m["wrappers"]}
-                if not w["list_element"] or w["mixed"] or w["qname"] in names or not _admits(w["namespaces"], w["qname"]):
+                if w["mixed"] or w["qname"] in names or not _admits(w["namespaces"], w["qname"]):
                     return False
     return True  # (no condition on the namespaces any more: repair c01g-01)
 
@@ -665,6 +673,9 @@ WILD_OTHER = _case(
         _f("w", {"list": "object"}, LIST, type="Wildcard", namespace="##other"),
         _f("a", {"opt": "str"}, NONE, type="Element")]}]},
     _o("Root", w={"list": [_any("{urn:g}p", "t"), _any("q", "")]}, a={"str": "x"}))
+WILD_SINGLE_NONE = _case(
+    {"classes": [{"name": "Root", "fields": [_f("w", {"opt": "object"}, NONE, type="Wildcard", namespace="##any")]}]},
+    _o("Root", w=None))
 WILD_SINGLE_CASE = _case(
     {"classes": [{"name": "Root", "fields": [_f("w", {"opt": "object"}, NONE, type="Wildcard", namespace="##any")]}]},
     _o("Root", w=_any("g", "t")))
